@@ -427,12 +427,12 @@ def rule_view_read(ctx: RuleContext, p: Program, rid: str) -> None:
 
 def run(ctx: RuleContext, p: Program) -> None:
     fns = rule_notify_post(ctx, p, 'NOTIFY-POST')
-    rule_notify_args(ctx, p, fns, 'NOTIFY-ARGS')
-    rule_sign_idx(ctx, p, fns, 'SIGN-IDX')
-    rule_notify_order(ctx, p, fns, 'NOTIFY-ORDER')
-    rule_own_idx(ctx, p, 'OWN-IDX')
-    rule_handler_form(ctx, p, 'HANDLER-FORM')
-    rule_view_read(ctx, p, 'VIEW-READ')
+    ctx.try_rule(rule_notify_args, p, fns, 'NOTIFY-ARGS')
+    ctx.try_rule(rule_sign_idx, p, fns, 'SIGN-IDX')
+    ctx.try_rule(rule_notify_order, p, fns, 'NOTIFY-ORDER')
+    ctx.try_rule(rule_own_idx, p, 'OWN-IDX')
+    ctx.try_rule(rule_handler_form, p, 'HANDLER-FORM')
+    ctx.try_rule(rule_view_read, p, 'VIEW-READ')
     ctx.not_decided += ['Python list semantics for every index / slice of each view', 'ordered-dict / first-match semantics of '
                         'the meta mapping view', 'MutableSequence mixin methods inherited from collections.abc']
     ctx.assumptions += ['bisect_left on a sorted list of distinct positions', 'range_from_index returns a range inside [0, n] '
